@@ -220,6 +220,25 @@ func init() {
 			texts = append(texts, &StrV{Conc: cur})
 			return TupleV{e.mkSlice(st, types.Typ[types.Int], ints), e.mkSlice(st, types.Typ[types.String], texts)}
 		},
+		"vTag": func(e *Exec, st *State, fn *ssa.Function, args []Val, where string) Val {
+			name, _ := e.concStr(args[1])
+			if iv, ok := args[0].(*IfaceV); ok {
+				if p, ok := iv.V.(*Ptr); ok && p.Obj != 0 {
+					e.Tags[p.Obj] = name
+				}
+			}
+			return nil
+		},
+		"vCalls": func(e *Exec, st *State, fn *ssa.Function, args []Val, where string) Val {
+			name, _ := e.concStr(args[0])
+			cnt := e.S.Int(0)
+			for _, ev := range e.Outs {
+				if ev.Chan == name {
+					cnt = e.S.Add(cnt, e.S.Ite(ev.Guard, e.S.Int(1), e.S.Int(0)))
+				}
+			}
+			return e.F.FromIndexInt(cnt, types.Typ[types.Int])
+		},
 		"vRegister": func(e *Exec, st *State, fn *ssa.Function, args []Val, where string) Val { return nil },
 	}
 }
@@ -853,4 +872,17 @@ func (e *Exec) ZeroResults(fn *ssa.Function) Val {
 func (e *Exec) NondetError(name string) Val {
 	fails := e.Input(name, "bool", types.Typ[types.Bool])
 	return &IfaceIte{C: fails, A: e.mkError(&StrV{Conc: "stubbed failure " + name}).(*IfaceV), B: &IfaceV{}}
+}
+
+// LogCall records a call of a stubbed function as an output event "call:<name>[:<tag of receiver>]".
+func (e *Exec) LogCall(st *State, fn *ssa.Function, args []Val) {
+	name := "call:" + fn.Name()
+	if len(args) > 0 {
+		if p, ok := args[0].(*Ptr); ok {
+			if t, ok := e.Tags[p.Obj]; ok {
+				name += ":" + t
+			}
+		}
+	}
+	e.Outs = append(e.Outs, OutEvent{Guard: st.G, Chan: name})
 }
